@@ -30,6 +30,7 @@
      nec 1|0                LexResolve.no_early_capture of the resolved tree
      run s <ending> | <values>      Pipeline.run_source      (Spec.run_spec)
      run i <ending> | <values>      Pipeline.run_source_impl (Lang.run_impl None on Pipeline.ids)
+     out <hex>                      what `shout` wrote for run i: Lang.display of every value + LF
      end <id> *)
 open ModelPipeline
 open Modes
@@ -252,7 +253,10 @@ let rule_str (r : rule) : string = match r with
 
 let run_line oc tag (estr : 'e -> string) (o : 'e outcome_of) =
   match o with
-  | Ran (outs, e) -> Printf.fprintf oc "run %s %s |%s\n" tag (estr e) (values_str outs)
+  | Ran (outs, e) ->
+      Printf.fprintf oc "run %s %s |%s\n" tag (estr e) (values_str outs);
+      if tag = "i" then
+        Printf.fprintf oc "out %s\n" (hex (List.concat (List.map (fun v -> display v @ [z_of_int 10]) outs)))
   | Rejected (ph, _) -> Printf.fprintf oc "run %s rejected:%s |\n" tag (phase_str ph)
   | NoFront f -> Printf.fprintf oc "run %s nofront:%s |\n" tag (underscored (failure_str f))
   | Unresolved -> Printf.fprintf oc "run %s unresolved |\n" tag
